@@ -358,7 +358,7 @@ func (e *Engine) sliceOfStringers(t types.Type) bool {
 // fmtArg is the text one operand contributes under a verb.
 func (e *Engine) fmtArg(x *Exec, verb string, a Term) Term {
 	last := verb[len(verb)-1]
-	op, args := splitApp(a.S)
+	op, args := splitApp(peek(a).S)
 	// syntactically known dynamic type
 	if len(args) == 1 {
 		switch {
